@@ -1345,15 +1345,16 @@ fn sub_tables_v5(tier: Tier, subs: &mut Vec<Sub>) {
     // entry counts, incl. the empty format / empty table the standard allows
     push_sub(subs, Sub::new(
         "tables-v5-counts",
-        5 * 5 * 4 * 2,
-        "version 5 headers: directories count 0..=3 and file_names count 0..=3 under 2 formats each, plus file_name_entry_format_count = 0 with file_names_count = 0 (allowed by DWARF 5 section 6.2.4 item 22), x DWARF32/64 x byte order",
+        9 * 9 * 4 * 2,
+        "version 5 headers: directories count and file_names count each in {0,1,2,3,127,128,129,300} (one- and two-byte ULEB128 counts) under 2 formats each, plus file_name_entry_format_count = 0 with file_names_count = 0 (allowed by DWARF 5 section 6.2.4 item 22), x DWARF32/64 x byte order",
         move |ctx, i| {
             let mut m = Mix(i);
             let big = m.flag();
             let fmt64 = m.flag();
             let fsel = m.take(2);
-            let nf = m.take(5);
-            let nd = m.take(5);
+            const COUNTS: [u64; 9] = [0, 1, 2, 3, 4, 127, 128, 129, 300]; // 4 = "no format, no entries"
+            let nf = COUNTS[m.take(9) as usize];
+            let nd = COUNTS[m.take(9) as usize];
             let c = Cfg { version: 5, fmt64, addr: 8, big };
             let mut h = mk_hdr(seq_params()[0], c);
             let dfmt: Vec<(u64, u64)> = if fsel == 0 { vec![(LNCT_PATH, FORM_LINE_STRP)] } else { vec![(0x2002, FORM_DATA2), (LNCT_PATH, FORM_STRING)] };
